@@ -144,7 +144,10 @@ class Nvl(Binary):
                 data=None,
                 data_type=left.data_type,
                 role=Role.MEASURE,
-                nullable=False,
+                # A nullable replacement component can still yield null.
+                nullable=left.nullable and right.nullable
+                if isinstance(right, DataComponent)
+                else False,
             )
         if isinstance(left, Dataset):
             if isinstance(right, DataComponent):
@@ -166,7 +169,15 @@ class Nvl(Binary):
                 if comp.role != Role.ATTRIBUTE
             }
             for comp in result_components.values():
-                comp.nullable = False
+                if (
+                    isinstance(right, Dataset)
+                    and comp.role == Role.MEASURE
+                    and comp.name in right.components
+                ):
+                    # A nullable replacement measure can still yield null.
+                    comp.nullable = comp.nullable and right.components[comp.name].nullable
+                else:
+                    comp.nullable = False
         return Dataset(name=dataset_name, components=result_components, data=None)
 
 
